@@ -455,3 +455,34 @@ func localDiff(got *Term, want string) bool {
 	d := termDist(got, w)
 	return d > 0 && d <= 3 && d*3 <= termSize(w)+2
 }
+
+// occurs: does a node satisfying pred occur in t (direct), and does one occur only beneath a
+// projection (a field, element or pointer read of a composite that merely CONTAINS it)? Reading one
+// part of a composite does not make the value read depend on its other parts, so an occurrence under
+// a projection is no evidence of a dependency.
+func occurs(t *Term, pred func(*Term) bool) (direct, underProjection bool) {
+	var walk func(x *Term, under bool)
+	walk = func(x *Term, under bool) {
+		if x == nil {
+			return
+		}
+		if pred(x) {
+			if under {
+				underProjection = true
+			} else {
+				direct = true
+			}
+			return
+		}
+		u := under
+		switch x.Op {
+		case "field", "deref", "each", "index", "extract", "partial", "lookup", "zip", "load", "closure", "call":
+			u = true
+		}
+		for _, a := range x.Args {
+			walk(a, u)
+		}
+	}
+	walk(t, false)
+	return
+}
